@@ -47,11 +47,16 @@ func (f *fetcher) handleUpstream304(req *http.Request, key cache.CacheKey) (cach
 		meta.Expires = time.Now().Add(maxAge)
 	})
 	if err != nil {
-		return nil, fmt.Errorf("%w: %v", ErrUpdateCacheMetadata, err)
+		// The entry vanished while it was being revalidated: bypass the cache for this request
+		return nil, fmt.Errorf("%w: %w: %v", ErrNotCacheable, ErrUpdateCacheMetadata, err)
 	}
 
 	slog.Debug("Successfully revalidated cache metadata", "url", req.URL, "key", key)
-	return f.cache.Get(key)
+	cached, err = f.cache.Get(key)
+	if err != nil {
+		return nil, fmt.Errorf("%w: %v", ErrNotCacheable, err)
+	}
+	return cached, nil
 }
 
 func (f *fetcher) handleUpstream200(req *http.Request, resp *http.Response, key cache.CacheKey, upstreamHd *headers.HeaderDirectives) (cached *cache.Entry[cachedRequestInfo], err error) {
@@ -84,7 +89,9 @@ func (f *fetcher) handleUpstream200(req *http.Request, resp *http.Response, key 
 		Header:       resp.Header,
 	})
 	if err != nil {
-		return nil, fmt.Errorf("%w: %v", ErrCacheResponseFailed, err)
+		// A cache-side failure must not turn a good origin answer into an error:
+		// bypass the cache for this request
+		return nil, fmt.Errorf("%w: %w: %v", ErrNotCacheable, ErrCacheResponseFailed, err)
 	}
 
 	metrics.Global.Requests.BytesFetched.Add(int64(bytesRead))
@@ -298,7 +305,12 @@ func (f *fetcher) dedupFetch(req *http.Request, key cache.CacheKey, clientHd *he
 		slog.Debug("Request can't be coalesced, fetching upstream...")
 		metrics.Global.Requests.NonCoalescedRequests.Increment()
 
-		return f.fetchUpstream(req, key, clientHd)
+		fetched, err = f.fetchUpstream(req, key, clientHd)
+		if err != nil && errors.Is(err, ErrNotCacheable) {
+			slog.Debug("Cache could not be used for this request, falling back to direct fetch", "url", req.URL, "error", err)
+			return f.fetchDirectlyFromUpstream(req)
+		}
+		return fetched, err
 	}
 
 	originalClientHd := *clientHd // Copy the original client headers so the shared requests don't get a modified version
